@@ -26,41 +26,52 @@ theorem G2_identities (s : App) (c : CSet) (g : G2 s c) :
     rw [← e, f1] at this; cases this
 
 /-- between blocks the three views coincide: a live validator's query answer and CometBFT power are `tokens / 10^6`;
-    an unbonding (removed) validator's query answer is 0 and CometBFT holds no entry under its key; CometBFT holds no
-    key that is not a live validator's -/
+    an unbonding (removed) validator's and a jailed validator's query answer is 0 and CometBFT holds no entry under its
+    key; CometBFT holds no key that is not a live validator's -/
 theorem G2_views (s : App) (c : CSet) (g : G2 s c) :
     (∀ v ∈ s.vals, (Active v ∧ s.queryPower (some v.op) = some ((powerOf v.tokens : Nat) : Int) ∧
                      alookup v.key c = some ((powerOf v.tokens : Nat) : Int)) ∨
-                   (Unb v ∧ s.queryPower (some v.op) = some 0 ∧ alookup v.key c = none)) ∧
+                   ((Unb v ∨ Jl v) ∧ s.queryPower (some v.op) = some 0 ∧ alookup v.key c = none)) ∧
     (∀ k p, alookup k c = some p → ∃ v ∈ s.vals, v.key = k ∧ Active v) := by
   have m := g.st
   have hknown : ∀ k p, alookup k c = some p → ∃ v ∈ s.vals, v.key = k ∧ Active v := by
     intro k p hkp
     obtain ⟨v, hv, hk, hb⟩ := g.cm.known k p hkp
     refine ⟨v, hv, hk, ?_⟩
-    rcases m.cls v hv with h | h | h
+    rcases m.cls v hv with h | h | h | h
     · exact h
-    · exact absurd h (g.noGone v hv)
+    · exact absurd (Or.inl h) (g.noLeaving v hv)
     · rw [h.1] at hb; cases hb
+    · exact absurd (Or.inr ⟨h, hb⟩) (g.noLeaving v hv)
+  have habsent : ∀ v ∈ s.vals, ¬ Active v → alookup v.key c = none := by
+    intro v hv hna
+    cases hc : alookup v.key c with
+    | none => rfl
+    | some p =>
+      exfalso
+      obtain ⟨x, hx, hxk, hxa⟩ := hknown v.key p hc
+      have : x = v := m.keys x hx v hv hxk
+      rw [this] at hxa
+      exact hna hxa
   refine ⟨?_, hknown⟩
   intro v hv
   have hg := mem_vals_getVal s m.sorted v hv
-  rcases m.cls v hv with h | h | h
+  rcases m.cls v hv with h | h | h | h
   · left
     refine ⟨h, ?_, g.allCur v hv h⟩
-    simp [queryPower, hg, lastPower, m.last v hv, lastOf_active v h, cur]
-  · exact absurd h (g.noGone v hv)
+    simp [queryPower, hg, lastPower, m.lastA v hv h, cur]
+  · exact absurd (Or.inl h) (g.noLeaving v hv)
   · right
-    refine ⟨h, ?_, ?_⟩
-    · simp [queryPower, hg, lastPower, m.last v hv, lastOf_unb v h]
-    · cases hc : alookup v.key c with
+    refine ⟨Or.inl h, ?_, habsent v hv (fun ha => active_not_unb v ha h)⟩
+    simp [queryPower, hg, lastPower, m.lastU v hv h]
+  · right
+    refine ⟨Or.inr h, ?_, habsent v hv (fun ha => active_not_jl v ha h)⟩
+    have hnb : ¬ v.status = .bonded := fun hb => g.noLeaving v hv (Or.inr ⟨h, hb⟩)
+    have hl : alookup v.op s.last = none := by
+      cases hq : alookup v.op s.last with
       | none => rfl
-      | some p =>
-        exfalso
-        obtain ⟨x, hx, hxk, hxa⟩ := hknown v.key p hc
-        have : x = v := m.keys x hx v hv hxk
-        rw [this] at hxa
-        exact active_not_unb v hxa h
+      | some p => exact absurd ((m.lastJ v hv h.1).mp (by rw [hq]; simp)) hnb
+    simp [queryPower, hg, lastPower, hl]
 
 /-! ### the records through the transactions of a quiet block -/
 
@@ -100,7 +111,7 @@ theorem keyFrame_of_vals (s s' : App) (h : s'.vals = s.vals) (hu : s'.updated = 
 
 theorem keyFrame_setPower (s s' : App) (c : CSet) (op p : Nat) (u : Bool) (m : M2 s c)
     (h : setPowerMsg genLimitFacts s .admin (some op) p u = .ok s')
-    (hq : s.pendingFind op = none → (∀ v, s.getVal op = some v → powerOf v.tokens > 0) ∧ op ∉ s.updated ∧ (p / PR, op) ∉ s.index) :
+    (hq : s.pendingFind op = none → (∀ v, s.getVal op = some v → powerOf v.tokens > 0 ∧ v.jailed = false) ∧ op ∉ s.updated ∧ (p / PR, op) ∉ s.index) :
     KeyFrame s s' := by
   cases hf : s.pendingFind op with
   | none =>
@@ -108,12 +119,8 @@ theorem keyFrame_setPower (s s' : App) (c : CSet) (op p : Nat) (u : Bool) (m : M
     obtain ⟨v, hv⟩ := setPower_target s s s' op p u hadm h
     have hvm := mem_of_getVal s op v hv
     have hvop := getVal_op _ _ _ hv
-    have hpos := (hq hf).1 v hv
-    have hj : v.jailed = false := by
-      rcases m.st.cls v hvm with a | a | a
-      · exact a.2.1
-      · exact a.2.1
-      · exact a.2.1
+    have hpos := ((hq hf).1 v hv).1
+    have hj : v.jailed = false := ((hq hf).1 v hv).2
     obtain ⟨_, _, _, D, LT, AB, B, S, hs'⟩ := setPower_shape s s s' op p u v hadm hv hj h
     have hvals : s'.vals = insertVal (reweigh v p) s.vals := by rw [hs']
     have hupd : s'.updated = sinsert op s.updated := by rw [hs']
@@ -149,15 +156,16 @@ theorem keyFrame_setPower (s s' : App) (c : CSet) (op p : Nat) (u : Bool) (m : M
 
 /-- a successful quiet RemoveValidator leaves its target `Gone`, with its key, and touches no other record -/
 theorem keyFrame_remove (s s' : App) (c : CSet) (op : Nat) (v : Val) (m : M2 s c) (h : s.removeCore (some op) = .ok s')
-    (hv : s.getVal op = some v) (hpos : powerOf v.tokens > 0) (hd3 : op ∉ s.updated) :
+    (hv : s.getVal op = some v) (hpos : powerOf v.tokens > 0) (hnj : v.jailed = false) (hd3 : op ∉ s.updated) :
     KeyFrame s s' ∧ s'.getVal op = some (emptied v) := by
   have hvm := mem_of_getVal s op v hv
   have hvop := getVal_op _ _ _ hv
   have hav : Active v := by
-    rcases m.st.cls v hvm with ha | hg | hu
+    rcases m.st.cls v hvm with ha | hg | hu | hj
     · exact ha
     · rw [hg.2.2.1] at hpos; simp [powerOf] at hpos
     · rw [hu.2.2.1] at hpos; simp [powerOf] at hpos
+    · rw [hj.1] at hnj; cases hnj
   obtain ⟨_, D, LT, AB, B, S, BM, I0, hs'⟩ := remove_shape s s' op v m.st hv hav h
   have hvals : s'.vals = insertVal (emptied v) s.vals := by rw [hs']
   have hupd : s'.updated = s.updated := by rw [hs']
@@ -175,7 +183,7 @@ theorem keyFrame_remove (s s' : App) (c : CSet) (op : Nat) (v : Val) (m : M2 s c
 
 theorem runTx_keyFrame (s : App) (c : CSet) (incs : List (Signer × Nat)) (tx : Tx) (m : M2 s c) (q : QuietTx2 s incs tx) :
     KeyFrame s (runTx genEnv s incs tx).2.1 := by
-  rcases q with hsame | ⟨op, p, u, hsg, hmsgs, hq⟩ | ⟨op, hmsgs, hq⟩ | ⟨a, hmsgs⟩ | ⟨tg, hmsgs⟩ | ⟨pa, hmsgs⟩
+  rcases q with ⟨hsame, _, _⟩ | ⟨op, p, u, hsg, hmsgs, hq⟩ | ⟨op, hmsgs, hq⟩ | ⟨a, hmsgs⟩ | ⟨tg, hmsgs⟩ | ⟨pa, hmsgs⟩
   · rw [hsame]; exact KeyFrame.rfl' s
   · unfold runTx at hq ⊢
     split
@@ -209,8 +217,8 @@ theorem runTx_keyFrame (s : App) (c : CSet) (incs : List (Signer × Nat)) (tx : 
         | error e => simp only [liftE]; exact KeyFrame.rfl' s
         | ok s' =>
           simp only [hr, liftE] at hq ⊢
-          obtain ⟨v, hv, hpos, hd3, _⟩ := hq trivial
-          exact (keyFrame_remove s s' c op v m (removeMsg_core s s' tx.signer op hr) hv hpos hd3).1
+          obtain ⟨v, hv, hpos, hnj, hd3, _⟩ := hq trivial
+          exact (keyFrame_remove s s' c op v m (removeMsg_core s s' tx.signer op hr) hv hpos hnj hd3).1
   · unfold runTx
     split
     · exact KeyFrame.rfl' s
@@ -255,11 +263,11 @@ theorem runTxs_keyFrame (c : CSet) : ∀ (txs : List Tx) (s : App) (incs : List 
     unfold runTxs
     exact (runTx_keyFrame s c incs tx m q.1).trans' (runTxs_keyFrame c rest _ _ _ (runTx_M2 s c incs tx m q.1) q.2)
 
-/-- a successful single RemoveValidator transaction leaves its target `Gone` -/
+/-- a successful single RemoveValidator transaction on a live, un-jailed target leaves it `Gone` -/
 theorem runTx_remove_gone (s : App) (c : CSet) (incs : List (Signer × Nat)) (tx : Tx) (m : M2 s c)
-    (op : Nat) (hmsgs : tx.msgs = [.remove (some op)]) (hok : (runTx genEnv s incs tx).1 = .ok) :
+    (op : Nat) (hmsgs : tx.msgs = [.remove (some op)]) (hok : (runTx genEnv s incs tx).1 = .ok)
+    (v : Val) (hv : s.getVal op = some v) (hpos : powerOf v.tokens > 0) (hnj : v.jailed = false) :
     ∃ w, (runTx genEnv s incs tx).2.1.getVal op = some w ∧ Gone w := by
-  -- the transaction is the removal disjunct (or left the state unchanged, which a successful removal never does)
   have hcore : ∃ s', s.removeMsg tx.signer (some op) = .ok s' ∧ (runTx genEnv s incs tx).2.1 = s' := by
     unfold runTx at hok ⊢
     split
@@ -278,53 +286,38 @@ theorem runTx_remove_gone (s : App) (c : CSet) (incs : List (Signer × Nat)) (tx
   obtain ⟨s', hr, hs'⟩ := hcore
   rw [hs']
   have hc := removeMsg_core s s' tx.signer op hr
-  -- the target of a successful removal exists and is bonded
-  have htarget : ∃ v, s.getVal op = some v := by
-    unfold removeCore at hc
-    split at hc
-    · cases hc
-    · cases hv : s.getVal op with
-      | none => simp [hv] at hc
-      | some v => exact ⟨v, rfl⟩
-  obtain ⟨v, hv⟩ := htarget
   have hvm := mem_of_getVal s op v hv
-  rcases m.st.cls v hvm with ha | hg | hu
-  · have hvop := getVal_op _ _ _ hv
-    obtain ⟨_, D, LT, AB, B, S, BM, I0, hs'e⟩ := remove_shape s s' op v m.st hv ha hc
-    have hvals : s'.vals = insertVal (emptied v) s.vals := by rw [hs'e]
-    have hself : s'.getVal op = some (emptied v) := by
-      have := getVal_insert_self s s' (emptied v) hvals
-      rw [show (emptied v).op = op from hvop] at this; exact this
-    exact ⟨emptied v, hself, ⟨rfl, ha.2.1, rfl, rfl⟩⟩
-  · -- a `Gone` target: the handler refuses (its recorded power already is 0)
-    exfalso
-    have hvop := getVal_op _ _ _ hv
-    have hlp : s.lastPower v.op = 0 := by simp [lastPower, m.st.last v hvm, lastOf_gone v hg]
-    unfold removeCore at hc
-    split at hc
-    · cases hc
-    · simp only [hv] at hc
-      split at hc
-      · cases hc
-      · split at hc
-        · cases hc
-        · cases hr2 : s.setPOAPower (some op) 0 with
-          | error e => simp [hr2] at hc
-          | ok s1 =>
-            simp only [setPOAPower, hv, setPOAPowerVal] at hr2
-            have hp0 : powerOfInt 0 = 0 := rfl
-            rw [hp0, hlp] at hr2
-            simp at hr2
-  · -- an unbonding target: the handler refuses
-    exfalso
-    unfold removeCore at hc
-    split at hc
-    · cases hc
-    · simp only [hv] at hc
-      split at hc
-      · cases hc
-      · rename_i hb
-        simp [hu.1] at hb
+  have hvop := getVal_op _ _ _ hv
+  have ha : Active v := by
+    rcases m.st.cls v hvm with ha | hg | hu | hj
+    · exact ha
+    · rw [hg.2.2.1] at hpos; simp [powerOf] at hpos
+    · rw [hu.2.2.1] at hpos; simp [powerOf] at hpos
+    · rw [hj.1] at hnj; cases hnj
+  obtain ⟨_, D, LT, AB, B, S, BM, I0, hs'e⟩ := remove_shape s s' op v m.st hv ha hc
+  have hvals : s'.vals = insertVal (emptied v) s.vals := by rw [hs'e]
+  have hself : s'.getVal op = some (emptied v) := by
+    have := getVal_insert_self s s' (emptied v) hvals
+    rw [show (emptied v).op = op from hvop] at this; exact this
+  exact ⟨emptied v, hself, ⟨rfl, ha.2.1, rfl, rfl⟩⟩
+
+/-- the quiet condition of a removal transaction, read off `QuietTx2` -/
+theorem quiet_remove_cond (s : App) (incs : List (Signer × Nat)) (tx : Tx) (q : QuietTx2 s incs tx) (op : Nat)
+    (hmsgs : tx.msgs = [.remove (some op)]) (hok : (runTx genEnv s incs tx).1 = .ok) :
+    ∃ v, s.getVal op = some v ∧ powerOf v.tokens > 0 ∧ v.jailed = false := by
+  rcases q with ⟨_, hnr, _⟩ | ⟨op', p, u, _, hm, _⟩ | ⟨op', hm, hq⟩ | ⟨a, hm⟩ | ⟨tg, hm⟩ | ⟨pa, hm⟩
+  · exact absurd hmsgs (hnr op)
+  · rw [hm] at hmsgs; cases hmsgs
+  · rw [hm] at hmsgs
+    injection hmsgs with h1 _
+    injection h1 with h1
+    injection h1 with h1
+    subst h1
+    obtain ⟨v, hv, hpos, hnj, _⟩ := hq hok
+    exact ⟨v, hv, hpos, hnj⟩
+  · rw [hm] at hmsgs; cases hmsgs
+  · rw [hm] at hmsgs; cases hmsgs
+  · rw [hm] at hmsgs; cases hmsgs
 
 end App
 end PoaVerif
@@ -348,7 +341,8 @@ theorem runTxs_remove_effect (c : CSet) (tx : Tx) (post : List Tx) (op : Nat) (h
       have : (acc ++ [(runTx genEnv s incs tx).1] ++ X)[acc.length]? = some (runTx genEnv s incs tx).1 := by
         rw [List.append_assoc, List.getElem?_append_right (Nat.le_refl _)]; simp
       rw [this] at hok; injection hok
-    obtain ⟨w, hw, hgw⟩ := runTx_remove_gone s c incs tx m op hmsgs hr
+    obtain ⟨v0, hv0, hpos0, hnj0⟩ := quiet_remove_cond s incs tx q.1 op hmsgs hr
+    obtain ⟨w, hw, hgw⟩ := runTx_remove_gone s c incs tx m op hmsgs hr v0 hv0 hpos0 hnj0
     obtain ⟨v', hv', hk', _, _⟩ := runTx_keyFrame s c incs tx m q.1 op v hv
     rw [hw] at hv'; injection hv' with hv'
     have m1 := runTx_M2 s c incs tx m q.1
@@ -376,19 +370,10 @@ theorem quiet2_block_remove_effect (s : App) (c : CSet) (b : Block) (g : G2 s c)
       (o.txrs[pre.length]? = some .ok →
         alookup v.key c' = none ∧
         (s'.getVal op = none ∨ ∃ w, s'.getVal op = some w ∧ Unb w ∧ w.key = v.key ∧ s'.queryPower (some op) = some 0)) := by
-  obtain ⟨I', B', hsl, hI'⟩ := q.votes
-  have g1 : G2 { s with infos := I', bitmap := B', height := s.height + 1, time := s.time + b.dt } c :=
-    G2_frame s c g I' B' (s.height + 1) (s.time + b.dt) hI'
-  obtain ⟨s2, hpb, g2, _, hvals2, _, _⟩ := poaBegin_G2 genEnv.lim _ c g1
-  have hbegin : beginState genEnv s b = .ok s2 := by
-    unfold beginState
-    have : slashingBegin b.votes { s with height := s.height + 1, time := s.time + b.dt } =
-        .ok { s with infos := I', bitmap := B', height := s.height + 1, time := s.time + b.dt } := hsl
-    rw [this]
-    simp only [q.noEvid, evidenceBegin]
-    exact hpb
-  have hv2 : s2.getVal op = some v := by rw [getVal_congr s2 s hvals2]; exact hv
-  have m3 := runTxs_M2 c b.txs s2 [] [] g2.toM2 (q.txs s2 hbegin)
+  obtain ⟨s2, hbegin, g2, hrecs2⟩ := begin_M2 s c b g q
+  obtain ⟨v2, hv2, hk2, _⟩ := hrecs2 v (mem_of_getVal s op v hv)
+  rw [getVal_op _ _ _ hv] at hv2
+  have m3 := runTxs_M2 c b.txs s2 [] [] g2 (q.txs s2 hbegin)
   have f3 := q.fits s2 hbegin
   obtain ⟨ups, s4, c', he, hc, hag, g4, _, _, _, _, hrec, _⟩ := endBlock_G2 _ c m3 f3
   refine ⟨⟨(runTxs genEnv b.txs s2 [] []).1, ups⟩, s4, c', ?_, hc, g4, ?_⟩
@@ -398,7 +383,8 @@ theorem quiet2_block_remove_effect (s : App) (c : CSet) (b : Block) (g : G2 s c)
   · intro hok
     have hq := q.txs s2 hbegin
     rw [hb] at hq hok
-    obtain ⟨w, hw, hgw, hkw⟩ := runTxs_remove_effect c tx post op hmsgs pre s2 [] [] v g2.toM2 hq hv2 (by simpa using hok)
+    obtain ⟨w, hw, hgw, hkw'⟩ := runTxs_remove_effect c tx post op hmsgs pre s2 [] [] v2 g2 hq hv2 (by simpa using hok)
+    have hkw : w.key = v.key := hkw'.trans hk2
     rw [← hb] at hw
     have hwm := mem_of_getVal _ op w hw
     have hviews := G2_views s4 c' g4
@@ -409,28 +395,33 @@ theorem quiet2_block_remove_effect (s : App) (c : CSet) (b : Block) (g : G2 s c)
         exfalso
         obtain ⟨x, hx, hxk, hxa⟩ := hviews.2 v.key p hcq
         have hgx := mem_vals_getVal s4 g4.st.sorted x hx
-        obtain ⟨v0, hv0, hcase⟩ := hrec x.op x hgx
-        rcases hcase with e | ⟨_, hu, _⟩
-        · have hv0m := mem_of_getVal _ x.op v0 hv0
-          have : v0 = w := m3.st.keys v0 hv0m w hwm (by rw [← e, hxk, hkw])
-          rw [e, this] at hxa
-          exact active_not_gone w hxa hgw
-        · exact active_not_unb x hxa hu
+        obtain ⟨v0, hv0, _, _, hbond⟩ := hrec x.op x hgx
+        have e := hbond hxa.1
+        have hv0m := mem_of_getVal _ x.op v0 hv0
+        have : v0 = w := m3.st.keys v0 hv0m w hwm (by rw [← e, hxk, hkw])
+        rw [e, this] at hxa
+        exact active_not_gone w hxa hgw
     · cases hg4 : s4.getVal op with
       | none => exact Or.inl rfl
       | some w' =>
         right
-        obtain ⟨v0, hv0, hcase⟩ := hrec op w' hg4
+        obtain ⟨v0, hv0, hk, hj, hbond⟩ := hrec op w' hg4
         rw [hw] at hv0; injection hv0 with hv0
-        rcases hcase with e | ⟨_, hu, hk⟩
-        · exfalso
-          rw [e, ← hv0] at hg4
-          exact g4.noGone w (mem_of_getVal s4 op w hg4) hgw
-        · refine ⟨w', rfl, hu, by rw [hk, ← hv0]; exact hkw, ?_⟩
-          have hw'm := mem_of_getVal s4 op w' hg4
-          have hw'op := getVal_op _ _ _ hg4
-          have hg4' : s4.getVal w'.op = some w' := by rw [hw'op]; exact hg4
-          simp [queryPower, lastPower, ← hw'op, hg4', g4.st.last w' hw'm, lastOf_unb w' hu]
+        have hw'm := mem_of_getVal s4 op w' hg4
+        have hu : Unb w' := by
+          rcases g4.st.cls w' hw'm with a | a | a | a
+          · exfalso
+            have := hbond a.1
+            rw [this, ← hv0] at a
+            exact active_not_gone w a hgw
+          · exact absurd (Or.inl a) (g4.noLeaving w' hw'm)
+          · exact a
+          · exfalso
+            rw [a.1, ← hv0, hgw.2.1] at hj; cases hj
+        refine ⟨w', rfl, hu, by rw [hk, ← hv0]; exact hkw, ?_⟩
+        have hw'op := getVal_op _ _ _ hg4
+        have hg4' : s4.getVal w'.op = some w' := by rw [hw'op]; exact hg4
+        simp [queryPower, lastPower, ← hw'op, hg4', g4.st.lastU w' hw'm hu]
 
 end App
 end PoaVerif
@@ -439,20 +430,16 @@ namespace PoaVerif
 namespace App
 
 /-- a successful SetPower by the admin leaves its target with the requested amount, in the cache of re-weighted operators -/
-theorem setPower_pins2 (s s' : App) (c : CSet) (op p : Nat) (u : Bool) (m : M2 s c)
-    (h : setPowerMsg genLimitFacts s .admin (some op) p u = .ok s') :
+theorem setPower_pins2 (s s' : App) (op p : Nat) (u : Bool)
+    (h : setPowerMsg genLimitFacts s .admin (some op) p u = .ok s')
+    (hnj : s.pendingFind op = none → ∀ v, s.getVal op = some v → v.jailed = false) :
     1000000 ≤ p ∧ op ∈ s'.updated ∧ ∃ w, s'.getVal op = some w ∧ w.tokens = p := by
   cases hf : s.pendingFind op with
   | none =>
     have hadm : s.admitIfPending (some op) = s := by simp [admitIfPending, hf]
     obtain ⟨v, hv⟩ := setPower_target s s s' op p u hadm h
-    have hvm := mem_of_getVal s op v hv
     have hvop := getVal_op _ _ _ hv
-    have hj : v.jailed = false := by
-      rcases m.st.cls v hvm with a | a | a
-      · exact a.2.1
-      · exact a.2.1
-      · exact a.2.1
+    have hj : v.jailed = false := hnj hf v hv
     obtain ⟨hlo, _, _, D, LT, AB, B, S, hs'⟩ := setPower_shape s s s' op p u v hadm hv hj h
     have hvals : s'.vals = insertVal (reweigh v p) s.vals := by rw [hs']
     have hupd : s'.updated = sinsert op s.updated := by rw [hs']
@@ -475,9 +462,10 @@ theorem setPower_pins2 (s s' : App) (c : CSet) (op p : Nat) (u : Bool) (m : M2 s
     have := getVal_insert_self s s' (reweigh (newborn q) p) hvals
     rw [show (reweigh (newborn q) p).op = op from hpop] at this; exact this
 
-theorem runTx_setPower_pins2 (s : App) (c : CSet) (incs : List (Signer × Nat)) (tx : Tx) (m : M2 s c)
+theorem runTx_setPower_pins2 (s : App) (incs : List (Signer × Nat)) (tx : Tx)
     (op p : Nat) (u : Bool) (hsg : tx.signer = .admin) (hmsgs : tx.msgs = [.setPower (some op) p u])
-    (hok : (runTx genEnv s incs tx).1 = .ok) :
+    (hok : (runTx genEnv s incs tx).1 = .ok)
+    (hnj : s.pendingFind op = none → ∀ v, s.getVal op = some v → v.jailed = false) :
     1000000 ≤ p ∧ op ∈ (runTx genEnv s incs tx).2.1.updated ∧ ∃ w, (runTx genEnv s incs tx).2.1.getVal op = some w ∧ w.tokens = p := by
   unfold runTx at hok ⊢
   split
@@ -495,7 +483,7 @@ theorem runTx_setPower_pins2 (s : App) (c : CSet) (incs : List (Signer × Nat)) 
       | error e => simp [hr, liftE] at hok
       | ok s' =>
         simp only [liftE]
-        exact setPower_pins2 s s' c op p u m hr
+        exact setPower_pins2 s s' op p u hr hnj
 
 /-- the transaction at position `pre.length`, a single SetPower(op, p) of the admin, succeeded ⇒ when the transactions
     are done the record of `op` holds `p` tokens -/
@@ -504,7 +492,8 @@ theorem runTxs_setPower_effect2 (c : CSet) (tx : Tx) (post : List Tx) (op p : Na
     ∀ (pre : List Tx) (s : App) (incs : List (Signer × Nat)) (acc : List TxR),
       M2 s c → QuietTxs2 (pre ++ tx :: post) s incs →
       (runTxs genEnv (pre ++ tx :: post) s incs acc).1[acc.length + pre.length]? = some .ok →
-      1000000 ≤ p ∧ ∃ w, (runTxs genEnv (pre ++ tx :: post) s incs acc).2.getVal op = some w ∧ w.tokens = p
+      1000000 ≤ p ∧ op ∈ (runTxs genEnv (pre ++ tx :: post) s incs acc).2.updated ∧
+        ∃ w, (runTxs genEnv (pre ++ tx :: post) s incs acc).2.getVal op = some w ∧ w.tokens = p
   | [], s, incs, acc, m, q, hok => by
     simp only [List.nil_append] at q hok ⊢
     unfold runTxs at hok ⊢
@@ -514,10 +503,24 @@ theorem runTxs_setPower_effect2 (c : CSet) (tx : Tx) (post : List Tx) (op p : Na
       have : (acc ++ [(runTx genEnv s incs tx).1] ++ X)[acc.length]? = some (runTx genEnv s incs tx).1 := by
         rw [List.append_assoc, List.getElem?_append_right (Nat.le_refl _)]; simp
       rw [this] at hok; injection hok
-    obtain ⟨hlo, hin, w, hw, htok⟩ := runTx_setPower_pins2 s c incs tx m op p u hsg hmsgs hr
+    have hnj : s.pendingFind op = none → ∀ v, s.getVal op = some v → v.jailed = false := by
+      intro hnone v hv
+      rcases q.1 with ⟨_, _, hns⟩ | ⟨op', p', u', _, hm, hq⟩ | ⟨op', hm, _⟩ | ⟨a, hm⟩ | ⟨tg, hm⟩ | ⟨pa, hm⟩
+      · exact absurd hmsgs (hns hsg op p u)
+      · rw [hm] at hmsgs
+        injection hmsgs with h1 _
+        injection h1 with h1 h2 h3
+        injection h1 with h1
+        subst h1; subst h2
+        exact ((hq hr hnone).1 v hv).2
+      · rw [hm] at hmsgs; cases hmsgs
+      · rw [hm] at hmsgs; cases hmsgs
+      · rw [hm] at hmsgs; cases hmsgs
+      · rw [hm] at hmsgs; cases hmsgs
+    obtain ⟨hlo, hin, w, hw, htok⟩ := runTx_setPower_pins2 s incs tx op p u hsg hmsgs hr hnj
     have m1 := runTx_M2 s c incs tx m q.1
     obtain ⟨w2, hw2, _, _, hu2⟩ := runTxs_keyFrame c post _ (runTx genEnv s incs tx).2.2 (acc ++ [(runTx genEnv s incs tx).1]) m1 q.2 op w hw
-    exact ⟨hlo, w2, hw2, by rw [(hu2 hin).1]; exact htok⟩
+    exact ⟨hlo, (hu2 hin).2, w2, hw2, by rw [(hu2 hin).1]; exact htok⟩
   | t :: pre, s, incs, acc, m, q, hok => by
     simp only [List.cons_append] at q hok ⊢
     unfold runTxs at hok ⊢
@@ -532,18 +535,8 @@ theorem quiet2_block_setPower_effect (s : App) (c : CSet) (b : Block) (g : G2 s 
     ∃ o s' c', block genEnv s b = .ok (o, s') ∧ Comet.applyChangeSet c o.updates = .ok c' ∧ G2 s' c' ∧
       (o.txrs[pre.length]? = some .ok →
         ∃ v, s'.getVal op = some v ∧ v.tokens = p ∧ alookup v.key c' = some ((p / PR : Nat) : Int)) := by
-  obtain ⟨I', B', hsl, hI'⟩ := q.votes
-  have g1 : G2 { s with infos := I', bitmap := B', height := s.height + 1, time := s.time + b.dt } c :=
-    G2_frame s c g I' B' (s.height + 1) (s.time + b.dt) hI'
-  obtain ⟨s2, hpb, g2, _, _, _, _⟩ := poaBegin_G2 genEnv.lim _ c g1
-  have hbegin : beginState genEnv s b = .ok s2 := by
-    unfold beginState
-    have : slashingBegin b.votes { s with height := s.height + 1, time := s.time + b.dt } =
-        .ok { s with infos := I', bitmap := B', height := s.height + 1, time := s.time + b.dt } := hsl
-    rw [this]
-    simp only [q.noEvid, evidenceBegin]
-    exact hpb
-  have m3 := runTxs_M2 c b.txs s2 [] [] g2.toM2 (q.txs s2 hbegin)
+  obtain ⟨s2, hbegin, g2, _⟩ := begin_M2 s c b g q
+  have m3 := runTxs_M2 c b.txs s2 [] [] g2 (q.txs s2 hbegin)
   have f3 := q.fits s2 hbegin
   obtain ⟨ups, s4, c', he, hc, hag, g4, _, _, _, _, _, hkeep⟩ := endBlock_G2 _ c m3 f3
   refine ⟨⟨(runTxs genEnv b.txs s2 [] []).1, ups⟩, s4, c', ?_, hc, g4, ?_⟩
@@ -553,14 +546,17 @@ theorem quiet2_block_setPower_effect (s : App) (c : CSet) (b : Block) (g : G2 s 
   · intro hok
     have hq := q.txs s2 hbegin
     rw [hb] at hq hok
-    obtain ⟨hlo, w, hw, htok⟩ := runTxs_setPower_effect2 c tx post op p u hsg hmsgs pre s2 [] [] g2.toM2 hq (by simpa using hok)
-    rw [← hb] at hw
+    obtain ⟨hlo, hinU, w, hw, htok⟩ := runTxs_setPower_effect2 c tx post op p u hsg hmsgs pre s2 [] [] g2 hq (by simpa using hok)
+    rw [← hb] at hw hinU
     have hwm := mem_of_getVal _ op w hw
     have haw : Active w := by
-      rcases m3.st.cls w hwm with a | a | a
+      rcases m3.st.cls w hwm with a | a | a | a
       · exact a
       · exfalso; have := a.2.2.1; rw [htok] at this; omega
       · exfalso; have := a.2.2.1; rw [htok] at this; omega
+      · exfalso
+        -- the record was written by this block's SetPower and not touched since: it is in the cache of re-weighted operators
+        exact active_not_jl w ((m3.st.idx w hwm).a2 (by rw [getVal_op _ _ _ hw]; exact hinU)).1 a
     have h4 := hkeep op w hw haw
     refine ⟨w, h4, htok, ?_⟩
     have := g4.allCur w (mem_of_getVal s4 op w h4) haw
